@@ -193,6 +193,14 @@ def _is_source(ctx, u, e, n) -> bool:
             x = x[1]  # a borrowed view hands out the very items of what it wraps
         if x[0] == "iter" and isinstance(x[1], tuple) and x[1][:1] == ("user",):
             x = x[1]
+        if x[0] == "item" and ":" in str(x[1]):
+            # an item of an iterable *of iterables* (chain's argument) is a source itself
+            owner, _, pname = str(x[1]).partition(":")
+            ou = ctx.pkg.unit(owner) if ctx.pkg.has_unit(owner) else None
+            ann = next((p.annotation for p in ou.params() if p.arg == pname.rstrip("[]")), None) if ou is not None else None
+            if ann is not None and norm(ann).count("Iterable[") >= 2:
+                return True
+            continue
         if x[0] not in ("user", "iter", "siter") or ":" not in str(x[1]):
             continue
         owner, _, pname = x[1].partition(":")
@@ -451,6 +459,12 @@ def _window(ctx, u, cfg, name: Optional[str], grown: ast.AST, n: Node) -> Tuple[
             return True, "filled in a loop over (zip(..) of) range(n): at most n entries"
         return False, "the heap grows outside its initial fill"
     if short == "heapq.merge":
+        if not ctx.pkg.has_unit("heapq._KeyIter.from_iters"):
+            # no per-source fill generator: a fill in a plain loop over the container of sources adds one holder per source
+            per_source = [a for (k, a) in n.regions if k == "loop" and _is_per_source_loop(ctx, u, a)]
+            if per_source and n.kind == "call" and norm(n.ast.func).split(".")[-1] == "append":
+                return True, "one head holder per source (filled in a loop over the sources)"
+            return False, "the heap grows outside its initial fill"
         fill_name = ctx.unit("heapq._KeyIter.from_iters").node.name  # (found structurally when renamed / moved)
         comp = grown if isinstance(grown, ast.ListComp) else None
         if comp is not None:
@@ -641,8 +655,9 @@ def r20_8(ctx) -> None:
 
 
 def r20_3(ctx) -> None:
+    from asl.inline import private_class_policy
     for short in ("heapq.merge", "heapq._largest"):
-        u = ctx.inlined(ctx.unit(short))
+        u = ctx.inlined(ctx.unit(short), policy=private_class_policy)  # (the heap may be kept by an object of a private class)
         cfg = cfg_of(u)
         loops = _loops_with_pulls(ctx, u)
         puller = c01.holder_roles(ctx)["puller"].node.name
